@@ -85,7 +85,28 @@ class BoxHooks(Hooks):
                 "<=": False if lo > 0 else None, "==": False if lo > 0 else None, "!=": True if lo > 0 else None}[op]
 
     def decide(self, interp, cond):
-        return self.decide_linear(cond)
+        r = self.decide_linear(cond)
+        if r is not None or cond.kind != "cmp":
+            return r
+        # factor out a common monomial of positive size symbols:  n_o*n_t - n_o  ->  n_o * (n_t - 1)
+        op, l, rr = cond.args
+        d = l - rr
+        if len(d.terms) < 2:
+            return None
+        common = None
+        for m in d.terms:
+            dm = {a: e for a, e in m if a[0] == "sym" and a[1] in self.bounds and self.bounds[a[1]] >= 1 and e > 0}
+            if common is None:
+                common = dm
+            else:
+                common = {a: min(e, dm[a]) for a, e in common.items() if a in dm}
+        if not common:
+            return None
+        g = Poly.const(1)
+        for a, e in common.items():
+            g = g * Poly.atom(a) ** e
+        q = d / g
+        return self.decide_linear(CondV("cmp", op, q, Poly.const(0)))
 
 
 class FGHooks(BoxHooks):
